@@ -97,16 +97,38 @@ func c14MakeBlock(h uint64, variant int64, ntx int64) *c14Block {
 	return &c14Block{hdr: hdr, data: d, sig: sig, hb: hb, db: db}
 }
 
-func c14State(v int64) types.State {
-	return types.State{
+// c14State: base state v with exactly one field moved by d (field 0 = none): consecutive writes that differ in
+// one field only are what the node does not do and a store must still get right.
+func c14State(v, field, d int64) types.State {
+	s := types.State{
 		Version: types.Version{Block: 11, App: uint64(v)}, ChainID: "c14", InitialHeight: 1,
 		LastBlockHeight: uint64(v), LastBlockTime: time.Unix(0, 1e18+v).UTC(), DAHeight: uint64(v * 3),
-		AppHash: bytes.Repeat([]byte{byte(v)}, 32),
+		AppHash: bytes.Repeat([]byte{byte(v)}, 32), LastResultsHash: bytes.Repeat([]byte{byte(v + 100)}, 32),
 	}
+	d = 1 + d%3
+	switch field % 9 {
+	case 1:
+		s.DAHeight += uint64(d)
+	case 2:
+		s.AppHash = bytes.Repeat([]byte{byte(v + 40*d)}, 32)
+	case 3:
+		s.LastBlockTime = s.LastBlockTime.Add(time.Duration(d))
+	case 4:
+		s.LastBlockHeight += uint64(10 * d)
+	case 5:
+		s.Version.App += uint64(10 * d)
+	case 6:
+		s.LastResultsHash = bytes.Repeat([]byte{byte(v + 50*d)}, 32)
+	case 7:
+		s.InitialHeight += uint64(d)
+	case 8:
+		s.Version.Block += uint64(d)
+	}
+	return s
 }
 
 func c14StateBytes(s types.State) []byte {
-	return []byte(fmt.Sprintf("%d/%d/%s/%d/%d/%d/%d/%x", s.Version.Block, s.Version.App, s.ChainID, s.InitialHeight, s.LastBlockHeight, s.LastBlockTime.UnixNano(), s.DAHeight, s.AppHash))
+	return []byte(fmt.Sprintf("%d/%d/%s/%d/%d/%d/%d/%x/%x", s.Version.Block, s.Version.App, s.ChainID, s.InitialHeight, s.LastBlockHeight, s.LastBlockTime.UnixNano(), s.DAHeight, s.AppHash, s.LastResultsHash))
 }
 
 // c14Verify reads the whole universe back and compares with the model; "" = equal.
@@ -215,7 +237,7 @@ func c14Apply(ctx context.Context, st store.Store, m *c14Model, op sim.Op) error
 		}
 		return err
 	case "state":
-		s := c14State(op.A%5 + 1)
+		s := c14State(op.A%5+1, op.B, op.C)
 		err := st.UpdateState(ctx, s)
 		m.state = c14StateBytes(s)
 		return err
@@ -289,14 +311,23 @@ func c14Run(t *testing.T, s *sim.Scn) *sim.Outcome {
 			after := m.clone()
 			if op.K == "errop" {
 				diskerrs++
+				rej0 := disk.Rejected
 				disk.FailNextWrites(1)
 				err := c14Apply(ctx, st, after, inner)
 				disk.FailNextWrites(0)
-				w := disk.JournalLen()
-				_ = w
-				if err == nil && !(inner.K == "setheight" && uint64(inner.A%(c14Heights+2)) <= before.height) {
-					o.Fail("C14/acknowledged-failed-write", "", i, fmt.Sprintf("%s returned nil although the disk rejected the write", inner), "an error")
+				if err == nil && disk.Rejected > rej0 {
+					o.Fail("C14/acknowledged-failed-write", "", i, fmt.Sprintf("%s returned nil although the disk rejected one of its writes", inner), "an error")
 					return o
+				}
+				if err == nil {
+					// the operation needed no write (e.g. a height that does not grow): then the store must already read as
+					// if it had been applied
+					if d := c14Verify(ctx, st, after); d != "" {
+						o.Fail("C14/read-differs-from-latest-write", "", i, fmt.Sprintf("%s returned nil without writing anything, but: %s", inner, d), "reads return what the latest acknowledged write stored")
+						return o
+					}
+					m = after
+					continue
 				}
 				// the op must have had no effect at all or full effect (a failed op is unacknowledged)
 				d0 := c14Verify(ctx, st, before)
